@@ -717,6 +717,12 @@ func c39Run(rt *rapid.T, pid string) {
 			customOp: func(rt *rapid.T, hh *nsHist, op string) bool {
 				h = hh
 				st.relayIdx = hh.w.relayIdx
+				if s.observe == nil {
+					// relay indexes that a host allocates and releases while time passes and nothing is
+					// delivered (retried relayed handshakes, tunnels timing out) are allocations too
+					w := hh.w
+					s.observe = func() { st.observeAgreed(w) }
+				}
 				switch op {
 				case "hostileControl":
 					st.hostileControl(rt, hh.w, hh)
